@@ -652,9 +652,11 @@ struct Exec {
                 for (size_t q = 0; q < L.nodes.size(); ++q) {
                     if (L.nodes[q].word != (w ? w : "") || L.nodes[q].sf != sf)
                         continue;
-                    if (first_seg)
-                        nx.insert((int)q);
-                    else
+                    if (first_seg) {
+                        // a start-to-end path begins at THE start node, not at any node of the first frame
+                        if ((int)q == L.start)
+                            nx.insert((int)q);
+                    } else
                         for (int pn : cands)
                             for (int li : L.nodes[(size_t)pn].exits)
                                 if (L.links[(size_t)li].to == (int)q)
